@@ -90,6 +90,18 @@ NOTES = {
  "C19-w12m2": "missed at first: only one stage failed per run. fail-double (a file that cannot be converted into the model plus a syntax error at the very end of another) was added; then caught (deadlock).",
  "C01-w12m1": "C01 stays silent (an append is one step under the serialising scheduler); caught by C19's race engine (data race in sumTree).",
  "C12-w12m2": "C12 stays silent (library level, one goroutine); caught by C19's race engine (data race in price.Multiply).",
+ "C01-w13m2": "missed at first: C01 read text tables only. A tenth of its cases now also run --csv with an explicit --digits 0..3 and read the Delta lines; then caught (Delta 0.1 in the CSV report).",
+ "C02-w13m2": "NOT CAUGHT: the change needs a journal that never mentions Equity:Equity (the --account filter is resolved before period closing creates that account). Every generated journal opens and uses Equity:Equity as its counter-account, and C02 treats rows of other equity accounts under closing as don't-care; building such journals would have meant a second reference for closing. Recorded as a gap.",
+ "C06-w13m2": "missed at first: no two same-day transactions differed only in their commodity. The generator now adds near-duplicates (same description, accounts and quantities; another commodity, or a @performance list that extends the original's) to 6% of the transactions; then caught (block-order).",
+ "C12-w13m2": "missed at first: the zero quote was always the last quote of its day. In half of the zero-price cases it now comes first and valid quotes follow; then caught (valuation-succeeds-without-price).",
+ "C14-w13m1": "missed at first: no two same-day transactions had @performance lists of which one is a prefix of the other; the near-duplicates added for C06-w13m2 include them; then caught (panic: index out of range).",
+ "C15-w13m2": "missed at first: training journals had no close directives. 30% now close one to four accounts that are booked on elsewhere in the training data; then caught (choice-differs-between-runs).",
+ "C16-w13m2": "missed at first: the simulated 'today' was always years after the journal. A sixth of C16's cases now run on a day in the middle of the journal; then caught (transactions lost).",
+ "C18-w13m1": "no verdict from the simulator (os.File.WriteAt is not modelled: engine S does not build); the engine-X fallback now also starts when engine S fails to build for any reason, and has a workload with an already formatted target whose placeholder is replaced by a name of the same length; then caught (real:torn-file under RLIMIT_FSIZE=57).",
+ "C19-w13m2": "missed at first: the race engine only ran journals that load. 15% of its cases now end every file in a malformed directive; then caught (data race in parseRec).",
+ "C19-w13m1": "C19 stays silent at the quick budget; caught by C14's late-failure sub-check (a failing stage reported as success).",
+ "C20-w13m2": "missed at first: weights rules had a level of at least 1. 15% now have level 0 with a suffix of 1 or 2; then caught (top level sums to 0%).",
+ "C03-w13m1": "C03 stays silent (one schedule per case: the report is wrong in the same way each time it is wrong); caught by C06 (balance-valued: different output between runs).",
 }
 DROPPED = [
  "C04 (wave 7, first change): Builder.Build skips the day sort while days 'arrive in ascending order'; the same idea as C05-m2 (caught by C04, C05, C19).",
